@@ -2067,3 +2067,23 @@ package hermes
 //@   after call ValAsFloat#4: ghost fVeloc = res0
 //@   ensures base: g.MAXAMAX == fAmax && g.MINTMP == fMintmp && g.WUMAXPF == fWumaxpf && g.VELOC == fVeloc/200
 //@   modifies g.ASIP, g.BAS, g.BLUET, g.DAUERKULT, g.DAYL, g.DEAD, g.DEV, g.DLBAS, g.DOUBLE, g.DRYSWELL, g.ENDPRO, g.GEHOB, g.LAIFKT, g.LEGUM, g.LUKRIT, g.MAIRT, g.MAXAMAX, g.MINTMP, g.NGEFKT, g.NRKOM, g.PHYLLO, g.PRO, g.REIF, g.RGA, g.RGB, g.SUM, g.SubOrgan, g.TROOTSUM, g.TSUM, g.VELOC, g.VERNTAGE, g.VSCHWELL, g.WDORG, g.WGMAX, g.WORG, g.WUGEH, g.WUMAXPF, g.YIFAK, g.YORGAN, l.AboveGroundOrgans, l.ENDBBCH, l.NRENTW, l.kc, l.kcini, l.temptyp, l.tendsum, l.useBBCH
+
+// C20  the groundwater source of the configuration file: the mode is looked up under EXACTLY the configured word (the table
+// of spellings is case sensitive - "gwTimeSeries" -; a normalised key silently selects another mode, i.e. another level)
+//@ func GroundWaterFrom.UnmarshalYAML
+//@   serves C20
+//@   ensures exact: isnil(result0) ==> *s == toID[j]
+
+// C16  the automatic sowing window: day and month from the crop's row of the automatic-management file, the YEAR of the
+// sowing date of the rotation entry (a window end composed with the harvest year lies a year late for every winter crop:
+// the forced sowing at the end of the window never happens in the sowing year)
+//@ region Input#sowwindow from "sat1 := crpman[4:8] + SAT[4:]" to "g.SAAT[SLFINDindex] = 0"
+//@   serves C16
+//@   opaque ValAsFloat DateConverter$1
+//@   ghost var w1 string
+//@   ghost var w2 string
+//@   after stmt "_, g.SAAT1[SLFINDindex] = g.Datum(": ghost w1 = sat1
+//@   after stmt "_, g.SAAT2[SLFINDindex] = g.Datum(": ghost w2 = sat2
+//@   ensures begin: w1 == crpman[4:8] + SAT[4:]
+//@   ensures end: w2 == crpman[9:13] + SAT[4:]
+//@   ensures pending: g.SAAT[SLFINDindex] == 0
